@@ -62,7 +62,7 @@ def gen_cases(ctx):
       yield {"kind": kind, "units": units, "num_buckets": nb,
              "default": (None if rng.rand() < .4 else int(rng.choice([-1, 100, nb - 1, 0]))),
              "split": bool(rng.rand() < .3), "wide": bool(rng.rand() < .6),
-             "float_input": bool(rng.rand() < .4),
+             "float_input": bool(rng.rand() < .4), "dtype": "float64" if rng.rand() < .15 else "float32",
              "seed": int(rng.randint(2**31 - 1)), "exec": modes.pick(rng, (0.5, 0.2, 0.3))}
       continue
     nk = int(rng.choice([2, 3, 5, 8]))
@@ -85,8 +85,9 @@ def _run_categorical(ctx, case):
   tf, tfl = _ensure()
   rng = np.random.RandomState(case["seed"])
   units, nb = case["units"], case["num_buckets"]
+  dt = case.get("dtype", "float32")
   layer = tfl.layers.CategoricalCalibration(num_buckets=nb, units=units, default_input_value=case["default"],
-                                            split_outputs=case["split"])
+                                            split_outputs=case["split"], **({} if dt == "float32" else {"dtype": dt}))
   wide = case["wide"] and units > 1
   cols = units if wide else 1
   B = 3 * nb + 4
@@ -96,13 +97,13 @@ def _run_categorical(ctx, case):
   if case["default"] is not None:
     x[-1, :] = case["default"]
     x[-2, 0] = case["default"]
-  dtype = np.float32 if case["float_input"] else np.int32
+  dtype = np.dtype(dt) if case["float_input"] else np.int32
   xin = tf.constant(x.astype(dtype))
   layer(xin)
-  K = (rng.normal(size=(nb, units)) * np.array([1., 10., .1])[:units]).astype(np.float32)
+  K = (rng.normal(size=(nb, units)) * np.array([1., 10., .1])[:units]).astype(dt)
   layer.kernel.assign(K)
   ex = case.get("exec", "eager")
-  ctx.cls("exec:" + ex)
+  ctx.cls("exec:" + ex, "dtype:" + dt)
   y = modes.call(tf, ex, layer, xin)
   if case["split"] and units > 1:
     ctx.check("CategoricalCalibration.call/split-shape", isinstance(y, list) and len(y) == units and all(t.shape[-1] == 1 for t in y),
